@@ -233,6 +233,29 @@ def run(ck, tier):
     rets = [r for r in ast.walk(rex.node) if isinstance(r, ast.Return) and isinstance(r.value, ast.Call) and callee_name(r.value) == 'ReadDeviceInformationResponse']
     ck.ob('R4', rex.qn, 'response carries the request read code and the factory result', len(rets) == 1 and U(rets[0].value.args[0]) == 'self.read_code',
           detail='response-args', loc=cx.floc(rex))
+    def _early_exit(ck, cx):
+        resp = cx.idx.cls('pymodbus.mei_message.ReadDeviceInformationResponse')
+        enc_ = cx.method(resp, 'encode')
+
+        def mr(node, frame, path):
+            return ['_OutOfSpaceException'] if isinstance(node, ast.Call) and callee_name(node) == '_encode_object' else []
+        n_ = 0
+        for p in cx.enum(enc_, resp, max_depth=0, may_raise=mr):
+            if p.exit and p.exit[0] == 'exc':
+                continue
+            annotate(p, heap=False)
+            idx_ = [i for i, e in enumerate(p.ev) if e.kind == 'loop' and e.a == 'break' and e.frame.fid == 0]
+            handled = any(e.kind == 'handler' for e in p.ev)
+            if not idx_ or handled:
+                continue
+            n_ += 1
+            later = [e for e in p.ev[idx_[0]:] if e.kind == 'assign' and U(e.a) in ('self.more_follows', 'self.next_object_id')]
+            ck.ob('R3', enc_.qn, 'the object loop is left before its end only with more_follows / next_object_id set', len(later) >= 2,
+                  detail='object-loop-left-without-continuation', loc=cx.floc(enc_, p.ev[idx_[0]].node),
+                  message='ReadDeviceInformationResponse.encode can break out of the object loop without setting more_follows and next_object_id: '
+                          'the remaining objects are dropped and the chain ends early')
+        return n_
+    ck.guard(_early_exit, ck, cx)
     from .c01 import shared_layout_findings
     n3 = ck.guard(shared_layout_findings, ck, cx, 'R3', ('ReadDeviceInformationResponse', 'ReadDeviceInformationRequest'),
                   'a client following the more-follows chain reads the continuation fields from the wrong bytes', ('R2', 'R3'))
